@@ -110,7 +110,7 @@ StmtObl(n) ==
                        \o (IF C(n).next = 0 THEN <<>> ELSE << E(C(n).next, 1) >>) \o << V(")"), <<"SUB", C(n).stmt>> >>
     [] K(n) = "Switch" -> << V("switch"), V("("), E(C(n).cond, 1), V(")") >>
                           \o (IF K(C(n).stmt) = "Compound"
-                              THEN << V("{"), <<"SW", C(C(n).stmt).block_items, 1>>, V("}") >>
+                              THEN << <<"SWB", C(n).stmt>> >>
                               ELSE << <<"SUB", C(n).stmt>> >>)
     [] K(n) = "Case" -> << V("case"), E(C(n).expr, 3), V(":"), <<"IL", C(n).stmts, 1>> >>
     [] K(n) = "Default" -> << V("default"), V(":"), <<"IL", C(n).stmts, 1>> >>
@@ -165,6 +165,11 @@ IL    == /\ Tag = "IL" /\ UNCHANGED pos
             IF i > Len(xs) THEN stk' = Rest
             ELSE IF IsDeclNode(xs[i]) THEN stk' = << <<"DECLS", xs, i, "block">> >> \o Rest
             ELSE stk' = << <<"S", xs[i]>>, <<"IL", xs, i+1>> >> \o Rest
+\* the body of a switch: a block, or - without '{' - the wrapper around "#pragma ... statement"
+SWB   == /\ Tag = "SWB" /\ UNCHANGED pos
+         /\ LET n == Top[2] IN
+            IF TV(pos) = "{" THEN stk' = << V("{"), <<"SW", C(n).block_items, 1>>, V("}") >> \o Rest
+            ELSE stk' = << <<"IL", C(n).block_items, 1>> >> \o Rest
 SW    == /\ Tag = "SW" /\ UNCHANGED pos
          /\ LET xs == Top[2] i == Top[3] IN
             IF i > Len(xs) THEN stk' = Rest
@@ -353,7 +358,7 @@ End   == /\ Tag = "END" /\ stk' = Rest /\ UNCHANGED pos
              \/ PrintT(<<"COORD", tid, K(Top[2]), Top[2], Top[3], pos-1>>))
 
 Next == /\ stk # <<>> /\ UNCHANGED tid
-        /\ (MatchV \/ Paren \/ Dir \/ Str \/ Stmt \/ StmtExpr \/ PragmaWrap \/ Sub \/ IL \/ SW \/ Ext \/ KR \/ Decls \/ DC \/ SP \/ Enums \/ Mem \/ MemSemi
+        /\ (MatchV \/ Paren \/ Dir \/ Str \/ Stmt \/ StmtExpr \/ PragmaWrap \/ Sub \/ IL \/ SWB \/ SW \/ Ext \/ KR \/ Decls \/ DC \/ SP \/ Enums \/ Mem \/ MemSemi
             \/ TN \/ DT \/ DParen \/ InitO \/ Inits \/ Desig \/ Nop \/ SkipPar \/ End \/ EndP)
 Spec == Init /\ [][Next]_vars
 Acc == (stk = <<>> /\ pos = NT + 1) => PrintT(<<"ACC", tid>>)
